@@ -89,6 +89,8 @@ def from_spec(r):
         return ("t", [from_spec(x) for x in r["xs"]])
     if t == "exc":
         return ("E", r["x"])
+    if t == "none":
+        return ("v", None)
     return UND
 
 
@@ -154,7 +156,7 @@ def arith_cases(rng, n):
     def add(op, x, y):
         if op == "**" and not (isinstance(y, (int, bool)) and -6 <= y <= 70 or isinstance(y, float)):
             return
-        if op == "**" and isinstance(x, int) and abs(x) > 2 ** 64 and isinstance(y, int) and y > 8:
+        if op == "**" and isinstance(x, int) and isinstance(y, int) and y > 0 and abs(x) > 1 and y * math.log10(abs(x)) > 120:
             return
         if op in ("<<", ">>") and isinstance(y, int) and y > 300:
             return
@@ -222,3 +224,544 @@ def check_arith(cases, printed):
         if not ok:
             bad.append({"case": i, "op": c["op"], "x": repr(c["_x"]), "y": repr(c["_y"]), "spec": repr(s)[:80], "python": repr(p)[:80]})
     return bad, decided
+
+
+# --------------------------------------------------------------------------- program ASTs (the records of the spec)
+
+def I(n):
+    return e_int(n)
+
+
+def F(x):
+    return e_float(x)
+
+
+def S(s):
+    return e_str(s)
+
+
+def N(v):
+    return {"k": "name", "v": v}
+
+
+def Bin(op, l, r):
+    return {"k": "bin", "op": op, "l": l, "r": r}
+
+
+def Un(k, e):
+    return {"k": k, "e": e}
+
+
+def Cond(c, a, b):
+    return {"k": "cond", "c": c, "a": a, "b": b}
+
+
+def BoolOp(k, a, b):
+    return {"k": k, "a": a, "b": b}
+
+
+def Cmp(op, l, r):
+    return {"k": "cmp", "op": op, "l": l, "r": r}
+
+
+def In(l, xs):
+    return {"k": "in", "l": l, "xs": xs}
+
+
+def MM(w, a, b):
+    return {"k": "mm", "w": w, "a": a, "b": b}
+
+
+def Lam(e):
+    return {"k": "lam", "e": e}
+
+
+def Idx(s, i):
+    return {"k": "idx", "s": s, "i": i}
+
+
+def Slice(s, lo, hi):
+    return {"k": "slice", "s": s, "lo": lo, "hi": hi}
+
+
+def Tup(xs):
+    return {"k": "tup", "xs": list(xs)}
+
+
+def Asg(v, e):
+    return {"k": "asg", "v": v, "e": e}
+
+
+def Aug(v, op, e):
+    return {"k": "aug", "v": v, "op": op, "e": e}
+
+
+def If(c, t, f=()):
+    return {"k": "if", "c": c, "t": list(t), "f": list(f)}
+
+
+def ForR(v, args, b):
+    return {"k": "forr", "v": v, "args": list(args), "b": list(b)}
+
+
+def ForS(v, s, b):
+    return {"k": "fors", "v": v, "s": s, "b": list(b)}
+
+
+def Ret(e):
+    return {"k": "ret", "e": e}
+
+
+def lit_value(e):
+    k = e["k"]
+    if k == "int":
+        n = 0
+        for d in reversed(e["m"]):
+            n = n * B + d
+        return -n if e["neg"] else n
+    if k == "flt":
+        return HUGE if e["c"] == "huge" else e["n"] / float(2 ** e["e"])
+    if k == "str":
+        return "".join(chr(c) for c in e["s"])
+    if k == "bool":
+        return e["b"]
+    raise ValueError(e)
+
+
+def rx(e):
+    """expression -> Python source"""
+    k = e["k"]
+    if k in ("int", "flt", "str", "bool"):
+        v = lit_value(e)
+        if k == "int":
+            return str(v) if v >= 0 else "(%d)" % v
+        return repr(v)
+    if k == "name":
+        return e["v"]
+    if k == "bin":
+        return "(%s %s %s)" % (rx(e["l"]), e["op"], rx(e["r"]))
+    if k == "neg":
+        return "(-%s)" % rx(e["e"])
+    if k == "inv":
+        return "(~%s)" % rx(e["e"])
+    if k == "abs":
+        return "abs(%s)" % rx(e["e"])
+    if k == "len":
+        return "len(%s)" % rx(e["e"])
+    if k == "cond":
+        return "(%s if %s else %s)" % (rx(e["a"]), rx(e["c"]), rx(e["b"]))
+    if k in ("or", "and"):
+        return "(%s %s %s)" % (rx(e["a"]), k, rx(e["b"]))
+    if k == "cmp":
+        return "(%s %s %s)" % (rx(e["l"]), e["op"], rx(e["r"]))
+    if k == "in":
+        return "(%s in (%s,))" % (rx(e["l"]), ", ".join(rx(x) for x in e["xs"]))
+    if k == "mm":
+        return "%s(%s, %s)" % (e["w"], rx(e["a"]), rx(e["b"]))
+    if k == "lam":
+        return "(lambda: %s)()" % rx(e["e"])
+    if k == "idx":
+        return "%s[%s]" % (rx(e["s"]), rx(e["i"]))
+    if k == "slice":
+        return "%s[%s:%s]" % (rx(e["s"]), rx(e["lo"]), rx(e["hi"]))
+    if k == "tup":
+        return "(%s,)" % ", ".join(rx(x) for x in e["xs"])
+    raise ValueError(e)
+
+
+def rs(s, ind):
+    p = "    " * ind
+    k = s["k"]
+    if k == "asg":
+        return [p + "%s = %s" % (s["v"], rx(s["e"]))]
+    if k == "aug":
+        return [p + "%s %s= %s" % (s["v"], s["op"], rx(s["e"]))]
+    if k == "if":
+        out = [p + "if %s:" % rx(s["c"])] + rb(s["t"], ind + 1)
+        if s["f"]:
+            out += [p + "else:"] + rb(s["f"], ind + 1)
+        return out
+    if k == "forr":
+        return [p + "for %s in range(%s):" % (s["v"], ", ".join(rx(a) for a in s["args"]))] + rb(s["b"], ind + 1)
+    if k == "fors":
+        return [p + "for %s in %s:" % (s["v"], rx(s["s"]))] + rb(s["b"], ind + 1)
+    if k == "ret":
+        return [p + "return %s" % rx(s["e"])]
+    raise ValueError(s)
+
+
+def rb(b, ind):
+    out = []
+    for s in b:
+        out += rs(s, ind)
+    return out or ["    " * ind + "pass"]
+
+
+PARAMS = ["a", "b", "s"]
+
+
+def render(fname, body):
+    return "\n".join(["def %s(%s):" % (fname, ", ".join(PARAMS))] + rb(body, 1)) + "\n"
+
+
+def assigned(body, acc=None):
+    """names bound by the statements, in order of first binding"""
+    acc = [] if acc is None else acc
+    for s in body:
+        if s["k"] in ("asg", "aug", "forr", "fors") and s["v"] not in acc:
+            acc.append(s["v"])
+        for sub in ("t", "f", "b"):
+            if sub in s and isinstance(s[sub], list):
+                assigned(s[sub], acc)
+    return acc
+
+
+# --------------------------------------------------------------------------- the systematic families
+
+BIG31 = 2 ** 31 - 1
+
+
+def shield(kind, e, alt=None):
+    """wrap e in a node at which MarkOverflowingArithmetic resets its flag"""
+    alt = e if alt is None else alt
+    if kind == "cond":
+        return Cond(Cmp(">", N("a"), I(-1)), e, alt)
+    if kind == "or":
+        return BoolOp("or", e, alt)
+    if kind == "and":
+        return BoolOp("and", alt, e)
+    if kind == "max":
+        return MM("max", e, I(2))
+    if kind == "min":
+        return MM("min", e, I(BIG31))
+    if kind == "none":
+        return e
+    raise ValueError(kind)
+
+
+def families(rng, quick):
+    """[(family, body)] : the programs that aim at the decision points of the inferer"""
+    out = []
+
+    def add(fam, body):
+        out.append((fam, body))
+
+    # F1 -- a local bound on some paths only, by a value of every kind
+    for name, lit in (("int", I(1)), ("flt", F(1.5)), ("str", S("q")), ("big", I(2 ** 40)), ("len", Un("len", N("s"))), ("cmp", Cmp("<", N("a"), N("b")))):
+        add("unbound_" + name, [If(Cmp(">", N("a"), I(2)), [Asg("x", lit)]), Ret(N("x"))])
+    add("unbound_loopvar", [ForR("i", [N("a")], [Asg("y", N("i"))]), Ret(Tup([N("i")]))])
+    add("unbound_loopvar_c", [ForR("i", [I(3), Un("len", N("s"))], [Asg("y", I(0))]), Ret(Tup([N("i")]))])
+    add("unbound_both", [If(Cmp(">", N("a"), I(2)), [Asg("x", I(1))], [Asg("y", F(0.5))]), Ret(Tup([N("x"), N("y")]))])
+    # F2 -- one local, int on one path and float on another
+    add("mix_if", [Asg("m", I(1)), If(Cmp(">", N("a"), I(2)), [Asg("m", F(2.5))]), Ret(N("m"))])
+    add("mix_if2", [If(Cmp(">", N("a"), I(2)), [Asg("m", F(0.5))], [Asg("m", I(7))]), Ret(Tup([N("m"), N("a")]))])
+    add("mix_acc", [Asg("m", I(0)), ForR("i", [N("a")], [Asg("m", Bin("+", N("m"), F(0.5)))]), Ret(N("m"))])
+    add("mix_acc2", [Asg("m", I(0)), ForR("i", [N("a")], [Aug("m", "+", F(1.5))]), Ret(Tup([N("m"), N("i")]))])
+    add("mix_div", [Asg("m", I(6)), If(Cmp(">", N("a"), I(2)), [Asg("m", Bin("/", N("b"), I(2)))]), Ret(N("m"))])
+    add("mix_obj", [Asg("m", N("b")), If(Cmp(">", N("a"), I(2)), [Asg("m", F(2.5))]), Ret(N("m"))])
+    add("mix_len", [Asg("m", Un("len", N("s"))), If(Cmp(">", N("a"), I(2)), [Asg("m", F(2.0))]), Ret(N("m"))])
+    add("mix_bool_int", [Asg("p", Cmp("<", N("a"), I(3))), If(Cmp(">", N("a"), I(1)), [Asg("p", I(5))]), Ret(N("p"))])
+    add("mix_int_str", [Asg("x", I(5)), If(Cmp(">", N("a"), I(2)), [Asg("x", S("five"))]), Ret(N("x"))])
+    add("mix_flt_str", [Asg("u", F(0.5)), If(Cmp(">", N("a"), I(2)), [Asg("u", S("half"))]), Ret(N("u"))])
+    # F3 -- C integers reaching arithmetic through a node that resets the might_overflow flag
+    srcs = {"lit": lambda: [Asg("x", I(BIG31))], "len": lambda: [Asg("x", Bin("|", Un("len", N("s")), I(BIG31)))],
+            "loop": lambda: [Asg("x", I(0)), ForR("i", [I(0), I(BIG31), I(2 ** 30)], [Asg("x", N("i"))]), Asg("x", Bin("|", N("x"), I(BIG31)))]}
+    shields = ["cond", "or", "and", "max", "min", "none"]
+    ops = ["mul3", "add", "shl", "shl_count", "pow3", "pow_var", "neg_chain", "truediv", "sub", "floordiv", "and_mul"]
+    for sk in shields:
+        for op in ops:
+            for src in (["lit", "len", "loop"] if (op == "mul3" or not quick) else ["lit"]):
+                x = lambda: shield(sk, N("x"))          # noqa: E731
+                if op == "mul3":
+                    e = Bin("*", Bin("*", x(), x()), x())
+                elif op == "add":
+                    e = Bin("+", Bin("*", Bin("*", x(), I(BIG31)), I(4)), x())
+                elif op == "shl":
+                    e = Bin("<<", x(), I(40))
+                elif op == "shl_count":
+                    e = Bin("<<", I(1), Bin("&", x(), I(127)))
+                elif op == "pow3":
+                    e = Bin("**", x(), I(3))
+                elif op == "pow_var":
+                    e = Bin("**", x(), shield(sk, N("y")))
+                elif op == "neg_chain":
+                    e = Bin("*", Un("neg", x()), Bin("*", x(), Un("abs", x())))
+                elif op == "truediv":
+                    e = Bin("/", Bin("*", x(), x()), shield(sk, N("y")))
+                elif op == "sub":
+                    e = Bin("-", Bin("*", Bin("*", Un("neg", x()), I(BIG31)), I(4)), x())
+                elif op == "floordiv":
+                    e = Bin("//", Bin("*", x(), x()), shield(sk, N("y")))
+                else:
+                    e = Bin("*", Bin("&", x(), I(0xFFFFFF)), Bin("*", x(), x()))
+                pre = srcs[src]() + [Asg("y", I(2))]
+                add("arith_%s_%s_%s" % (sk, op, src), pre + [Asg("z", e), Ret(Tup([N("z")]))])
+    for sk in shields:        # the same in a loop: the classic accumulator
+        add("accum_%s" % sk, [Asg("x", I(1)), Asg("t", I(1)), ForR("i", [N("a")], [Asg("t", Bin("*", shield(sk, N("t")), I(2))), Asg("x", Bin("+", N("x"), N("x")))]),
+                              Ret(Tup([N("t"), N("x")]))])
+    # F4 -- the arithmetic sits in a lambda: the mark goes to the inner entry
+    for sk in ("none", "cond"):
+        for src in ("lit", "len"):
+            x = lambda: shield(sk, N("x"))          # noqa: E731
+            add("closure_%s_%s" % (sk, src), srcs[src]() + [Ret(Lam(Bin("*", Bin("*", x(), x()), x())))])
+    add("closure_shift", [Asg("x", I(70)), Ret(Lam(Bin("<<", I(1), N("x"))))])
+    add("closure_pow", [Asg("x", I(7)), Asg("y", I(30)), Ret(Lam(Bin("**", N("x"), N("y"))))])
+    add("closure_obj", [Asg("x", N("b")), Ret(Lam(Bin("*", Bin("*", N("x"), N("x")), N("x"))))])
+    add("closure_marked_outside", [Asg("x", I(BIG31)), Asg("y", Bin("+", N("x"), I(1))), Ret(Tup([N("y"), Lam(Bin("*", Bin("*", N("x"), N("x")), N("x")))]))])
+    # F5 -- C double **
+    for base in (F(HUGE), F(0.0), F(0.5), F(2.0)):
+        for ex in (2, 3, -1, -2, 0, 1):
+            add("dpow_%s_%d" % (lit_value(base), ex), [Asg("u", base), If(Cmp(">", N("a"), I(60)), [Asg("u", F(1.5))]), Ret(Bin("**", N("u"), I(ex)))])
+    add("dpow_obj", [Asg("u", N("b")), Ret(Bin("**", N("u"), I(2)))])
+    add("dpow_loop", [Asg("u", F(2.0)), ForR("i", [N("a")], [Asg("u", Bin("*", N("u"), F(2.0)))]), Ret(Bin("**", N("u"), I(-1)))])
+    # F6 -- Py_UCS4 locals compared with numbers
+    for cmpop in ("==", "<", "!=", ">="):
+        add("uchar_for_%s" % cmpop, [Asg("t", S("abc")), Asg("n", I(0)), ForS("c", N("t"), [If(Cmp(cmpop, N("c"), I(98)), [Asg("n", Bin("|", N("n"), I(1)))])]), Ret(N("n"))])
+        add("uchar_idx_%s" % cmpop, [Asg("t", S("abc")), Asg("c", Idx(N("t"), I(1))), Ret(Cmp(cmpop, N("c"), I(98)))])
+    add("uchar_in", [Asg("t", S("abc")), Asg("n", I(0)), ForS("c", N("t"), [If(In(N("c"), [I(97), I(99)]), [Asg("n", Bin("|", N("n"), I(2)))])]), Ret(N("n"))])
+    add("uchar_in_str", [Asg("t", S("abc")), Asg("n", I(0)), ForS("c", N("t"), [If(In(N("c"), [S("a"), S("c")]), [Asg("n", Bin("|", N("n"), I(2)))])]), Ret(N("n"))])
+    add("uchar_eq_str", [Asg("t", S("abc")), Asg("n", I(0)), ForS("c", N("t"), [If(Cmp("==", N("c"), S("b")), [Asg("n", Bin("|", N("n"), I(4)))])]), Ret(Tup([N("n"), N("c")]))])
+    add("uchar_param", [Asg("n", I(0)), ForS("c", N("s"), [If(Cmp("==", N("c"), I(97)), [Asg("n", Bin("|", N("n"), I(1)))])]), Ret(N("n"))])
+    add("uchar_arith", [Asg("t", S("abc")), Asg("r", S("")), ForS("c", N("t"), [Asg("r", Bin("+", N("c"), N("r")))]), Ret(Tup([N("r"), N("c")]))])
+    add("uchar_shield_add", [Asg("t", S("abc")), Asg("c", Idx(N("t"), I(0))), Ret(Bin("+", shield("cond", N("c")), I(1)))])
+    # F7 -- one local, a character on one path and an int on another
+    add("uchar_int_span", [Asg("t", S("abc")), Asg("c", Idx(N("t"), I(0))), If(Cmp(">", N("a"), I(2)), [Asg("c", I(5))]), Ret(N("c"))])
+    add("uchar_int_span_for", [Asg("t", S("abc")), Asg("c", I(7)), ForS("c", N("t"), [Asg("y", I(0))]), Ret(Tup([N("c")]))])
+    add("uchar_flt_span", [Asg("t", S("abc")), Asg("c", Idx(N("t"), I(0))), If(Cmp(">", N("a"), I(2)), [Asg("c", F(0.5))]), Ret(N("c"))])
+    add("uchar_str_span", [Asg("t", S("abc")), Asg("c", Idx(N("t"), I(0))), If(Cmp(">", N("a"), I(2)), [Asg("c", S("xy"))]), Ret(N("c"))])
+    # F8 -- str-typed locals sliced / indexed with arbitrary Python ints
+    add("slice_hi", [Asg("t", S("abcdef")), Ret(Slice(N("t"), I(1), N("b")))])
+    add("slice_lo", [Asg("t", S("abcdef")), Ret(Slice(N("t"), N("b"), I(4)))])
+    add("slice_both_c", [Asg("t", S("abcdef")), Asg("x", I(1)), Asg("y", I(4)), Ret(Slice(N("t"), N("x"), N("y")))])
+    add("slice_param", [Ret(Slice(N("s"), I(0), N("b")))])
+    add("index_obj", [Asg("t", S("abcdef")), Ret(Idx(N("t"), N("b")))])
+    add("index_c", [Asg("t", S("abcdef")), Asg("x", I(7)), If(Cmp(">", N("a"), I(2)), [Asg("x", I(-2))]), Ret(Idx(N("t"), N("x")))])
+    add("str_concat_loop", [Asg("t", S("")), ForR("i", [Bin("&", N("a"), I(3))], [Asg("t", Bin("+", N("t"), S("ab")))]), Ret(Tup([N("t"), Un("len", N("t"))]))])
+    add("str_repeat", [Asg("t", S("ab")), Asg("x", I(3)), Ret(Bin("*", N("t"), N("x")))])
+    # F9 -- loops that grow integers past 2^31 and 2^63 (inference must step aside)
+    for name, stmt in (("mul", Asg("x", Bin("*", N("x"), I(2)))), ("augmul", Aug("x", "*", I(3))), ("add", Asg("x", Bin("+", N("x"), N("x")))),
+                       ("shl", Aug("x", "<<", I(1))), ("shl2", Asg("x", Bin("<<", N("x"), I(1)))), ("sub", Asg("x", Bin("-", N("x"), Bin("*", N("x"), I(3))))),
+                       ("neg", Asg("x", Un("neg", Bin("*", N("x"), I(2))))), ("orshift", Asg("x", Bin("|", N("x"), Bin("<<", I(1), N("i"))))),
+                       ("addi", Asg("x", Bin("+", Bin("*", N("x"), I(7)), N("i")))), ("augadd_big", Aug("x", "+", I(2 ** 62)))):
+        add("grow_" + name, [Asg("x", I(1)), ForR("i", [N("a")], [stmt]), Ret(Tup([N("x"), N("i")]))])
+    add("grow_two", [Asg("x", I(1)), Asg("y", I(BIG31)), ForR("i", [N("a")], [Asg("y", Bin("+", N("y"), N("x"))), Asg("x", Bin("*", N("x"), I(2)))]), Ret(Tup([N("x"), N("y")]))])
+    add("grow_copy", [Asg("x", I(1)), ForR("i", [N("a")], [Asg("y", N("x")), Asg("x", Bin("*", N("y"), I(2)))]), Ret(Tup([N("x")]))])
+    add("grow_biglit", [Asg("x", I(2 ** 31)), Asg("y", I(-2 ** 31)), Asg("z", I(-2 ** 31 - 1)), Ret(Tup([N("x"), N("y"), N("z"), Bin("*", N("y"), N("y"))]))])
+    add("grow_abs", [Asg("x", I(-2 ** 31)), ForR("i", [Bin("&", N("a"), I(3))], [Asg("x", Un("abs", Bin("*", N("x"), N("x"))))]), Ret(N("x"))])
+    # F10 -- len() / range counters
+    add("count_len", [Asg("n", Un("len", N("s"))), Asg("t", I(0)), ForR("i", [N("n")], [Asg("t", Bin("+", N("t"), Bin("*", N("i"), N("i"))))]), Ret(Tup([N("n"), N("t")]))])
+    add("count_range3", [Asg("t", I(0)), ForR("i", [I(5), N("a"), I(7)], [Asg("t", Bin("+", N("t"), N("i")))]), Ret(Tup([N("t"), N("i")]))])
+    add("count_down", [Asg("t", I(0)), ForR("i", [N("a"), I(0), I(-3)], [Asg("t", Bin("^", N("t"), N("i")))]), Ret(Tup([N("t"), N("i")]))])
+    add("count_reassign", [Asg("t", I(0)), ForR("i", [I(4)], [Asg("t", Bin("|", N("t"), N("i"))), Asg("i", I(9))]), Ret(Tup([N("t"), N("i")]))])
+    add("count_nested", [Asg("t", I(0)), ForR("i", [Bin("&", N("a"), I(7))], [ForR("j", [N("i")], [Aug("t", "+", Bin("*", N("i"), N("j")))])]), Ret(N("t"))])
+    add("count_bigbound", [Asg("t", I(0)), ForR("i", [I(2 ** 62), Bin("+", I(2 ** 62), Bin("&", N("a"), I(3)))], [Asg("t", N("i"))]), Ret(N("t"))])
+    add("count_len_mul", [Asg("n", Un("len", N("s"))), Ret(Bin("*", Bin("*", Bin("*", N("n"), I(BIG31)), I(BIG31)), I(16)))])
+    # F11 -- division and mixing
+    add("div_int", [Asg("x", I(7)), Asg("y", Bin("-", N("a"), I(2))), Ret(Tup([Bin("/", N("x"), I(2)), Bin("//", N("x"), I(-2)), Bin("%", N("x"), I(-3))]))])
+    add("div_zero", [Asg("x", I(7)), Asg("y", I(0)), If(Cmp(">", N("a"), I(2)), [Asg("y", I(2))]), Ret(Bin("//", shield("or", N("x")), shield("cond", N("y"))))])
+    add("div_zero_mod", [Asg("x", I(7)), Asg("y", I(0)), If(Cmp(">", N("a"), I(2)), [Asg("y", I(-2))]), Ret(Bin("%", shield("or", N("x")), shield("cond", N("y"))))])
+    add("div_zero_true", [Asg("x", I(7)), Asg("y", I(0)), If(Cmp(">", N("a"), I(2)), [Asg("y", I(4))]), Ret(Bin("/", shield("or", N("x")), shield("cond", N("y"))))])
+    add("div_flt", [Asg("u", F(7.5)), Asg("w", F(0.0)), If(Cmp(">", N("a"), I(2)), [Asg("w", F(-2.0))]), Ret(Tup([Bin("*", N("u"), I(2)), Bin("//", N("u"), N("w"))]))])
+    add("div_flt_mod", [Asg("u", F(7.5)), Asg("w", F(0.0)), If(Cmp(">", N("a"), I(2)), [Asg("w", F(2.0))]), Ret(Bin("%", N("u"), N("w")))])
+    add("flt_acc", [Asg("u", F(0.0)), ForR("i", [N("a")], [Asg("u", Bin("+", N("u"), Bin("*", N("i"), F(0.5))))]), Ret(Tup([N("u"), Bin("/", N("u"), I(4))]))])
+    add("flt_int_mix", [Asg("x", I(3)), Asg("u", F(0.5)), Ret(Tup([Bin("+", N("x"), N("u")), Bin("*", N("x"), N("u")), Bin("-", N("u"), N("x")), Bin("/", N("x"), N("u"))]))])
+    add("flt_cmp_big", [Asg("x", I(BIG31)), Asg("u", F(2.0)), Ret(Tup([Cmp("<", Bin("*", shield("or", N("x")), shield("or", N("x"))), N("u")), Cmp("==", N("x"), N("u"))]))])
+    # F12 -- bools
+    add("bool_ret", [Asg("p", Cmp("<", N("a"), N("b"))), Asg("q", Cmp("<", I(3), Un("len", N("s")))), Ret(Tup([N("p"), N("q"), BoolOp("and", N("p"), N("q"))]))])
+    add("bool_c", [Asg("x", I(3)), Asg("p", Cmp("<", shield("or", N("x")), I(5))), If(N("p"), [Asg("x", I(4))]), Ret(Tup([N("p"), N("x")]))])
+    return out
+
+
+# --------------------------------------------------------------------------- seeded random programs
+
+class RandGen(object):
+    IV = ["x", "y", "z"]
+    FV = ["u", "w"]
+    INTS = [0, 1, 2, 3, 7, 10, 255, 1000, 65536, BIG31, 2 ** 31, 2 ** 62, 2 ** 63 - 1]
+    FLOATS = [0.0, 0.5, 1.5, 2.0, 2.5, 3.0, -0.5, HUGE]
+
+    def __init__(self, rng):
+        self.rng = rng
+
+    def ch(self, xs):
+        return self.rng.choice(xs)
+
+    def iatom(self, names, loop):
+        r = self.rng.random()
+        iv = [n for n in names if n in self.IV or n in ("a", "b", "i", "j")]
+        if r < 0.5 and iv:
+            return N(self.ch(iv))
+        if r < 0.9:
+            v = self.ch(self.INTS)
+            return I(-v if self.rng.random() < 0.15 else v)
+        return Un("len", N("s"))
+
+    def iexpr(self, d, names, loop):
+        r = self.rng.random()
+        if d <= 0 or r < 0.22:
+            return self.iatom(names, loop)
+        if r < 0.62:
+            op = self.ch(["+", "-", "*", "*", "//", "%", "<<", ">>", "&", "|", "^", "**"])
+            l = self.iexpr(d - 1, names, loop)
+            if op in ("<<", ">>"):
+                rr = I(self.ch([1, 2, 3] if loop else [1, 3, 31, 40, 62]))
+            elif op == "**":
+                if loop:
+                    op, rr = "*", I(3)
+                else:
+                    rr = I(self.ch([2, 3]))
+            elif op == "*" and loop:
+                rr = I(self.ch([2, 3, 10]))
+            else:
+                rr = self.iexpr(d - 1, names, loop)
+            if l["k"] == "int" and rr["k"] == "int":
+                l = N(self.ch(["a", "b"]))
+            return Bin(op, l, rr)
+        if r < 0.72:
+            return Cond(self.cond(names, loop), self.iexpr(d - 1, names, loop), self.iexpr(d - 1, names, loop))
+        if r < 0.79:
+            return BoolOp(self.ch(["or", "and"]), self.iexpr(d - 1, names, loop), self.iexpr(d - 1, names, loop))
+        if r < 0.88:
+            e = self.iexpr(d - 1, names, loop)
+            if e["k"] == "int":
+                e = N("b")
+            return Un(self.ch(["neg", "inv", "abs"]), e)
+        if r < 0.95:
+            return MM(self.ch(["min", "max"]), self.iexpr(d - 1, names, loop), self.iexpr(d - 1, names, loop))
+        return Lam(self.iexpr(d - 1, [n for n in names if n not in ("i", "j")], loop))
+
+    def fexpr(self, d, names, loop):
+        r = self.rng.random()
+        fv = [n for n in names if n in self.FV or n == "m"]
+        if d <= 0 or r < 0.3:
+            if fv and self.rng.random() < 0.55:
+                return N(self.ch(fv))
+            return F(self.ch(self.FLOATS))
+        if r < 0.75:
+            op = self.ch(["+", "-", "*", "/", "//", "%", "**"])
+            l = self.fexpr(d - 1, names, loop) if self.rng.random() < 0.7 else self.iexpr(d - 1, names, loop)
+            if op == "**":
+                if l["k"] in ("flt", "int"):
+                    l = N(self.ch(fv)) if fv else N("b")
+                return Bin("**", l, I(self.ch([2, 3, -1, 2, 0])))
+            rr = self.fexpr(d - 1, names, loop) if self.rng.random() < 0.6 else self.iexpr(d - 1, names, loop)
+            if l["k"] in ("flt", "int") and rr["k"] in ("flt", "int"):
+                rr = N(self.ch(fv)) if fv else N("a")
+            return Bin(op, l, rr)
+        if r < 0.85:
+            return Cond(self.cond(names, loop), self.fexpr(d - 1, names, loop), self.fexpr(d - 1, names, loop))
+        e = self.fexpr(d - 1, names, loop)
+        if e["k"] == "flt":
+            e = N(self.ch(fv)) if fv else N("b")
+        return Un(self.ch(["neg", "abs"]), e)
+
+    def cond(self, names, loop):
+        iv = [n for n in names if n in self.IV or n in ("a", "b", "i", "j")]
+        return Cmp(self.ch(["<", ">", "==", "!=", "<=", ">="]), N(self.ch(iv)), self.iatom(names, loop))
+
+    def block(self, depth, names, nst, loop):
+        out = []
+        for _ in range(nst):
+            r = self.rng.random()
+            if r < 0.5 or depth <= 0:
+                v = self.ch(self.IV + self.IV + self.FV + ["m"])
+                if v in self.IV:
+                    e = self.iexpr(2, names, loop)
+                elif v in self.FV:
+                    e = self.fexpr(2, names, loop)
+                else:
+                    e = self.iexpr(1, names, loop) if self.rng.random() < 0.5 else self.fexpr(1, names, loop)
+                out.append(Asg(v, e))
+                if v not in names:
+                    names.append(v)
+            elif r < 0.62:
+                cands = [n for n in names if n in self.IV + self.FV]
+                if not cands:
+                    continue
+                v = self.ch(cands)
+                if v in self.IV:
+                    out.append(Aug(v, self.ch(["+", "*", "-", "|", "<<"]), self.ch([I(1), I(2), I(3)]) if loop else self.iexpr(1, names, loop)))
+                    if out[-1]["op"] == "<<" and not loop:
+                        out[-1]["e"] = I(self.ch([1, 5, 33]))
+                else:
+                    out.append(Aug(v, self.ch(["+", "*", "-"]), self.fexpr(1, names, loop)))
+            elif r < 0.8:
+                c = self.cond(names, loop)
+                t = self.block(depth - 1, names, self.rng.randint(1, 2), loop)
+                f = self.block(depth - 1, names, self.rng.randint(1, 2), loop) if self.rng.random() < 0.5 else []
+                out.append(If(c, t, f))
+            else:
+                it = "j" if loop else "i"
+                if loop:
+                    args = [I(self.ch([2, 3]))]
+                else:
+                    args = self.ch([[N("a")], [I(3)], [I(1), N("a")], [I(0), I(70), I(7)], [Un("len", N("s"))], [N("a"), I(0), I(-9)]])
+                body = self.block(depth - 1, names + ([it] if it not in names else []), self.rng.randint(1, 2), True)
+                out.append(ForR(it, args, body))
+                if it not in names:
+                    names.append(it)
+        return out
+
+    def program(self):
+        names = ["a", "b"]
+        body = [Asg("x", self.iexpr(1, names, False))]
+        names.append("x")
+        if self.rng.random() < 0.85:
+            body += [Asg("y", I(self.ch([0, 1, 5]))), Asg("u", F(self.ch([0.5, 2.0]))), Asg("m", I(1))]
+            names += ["y", "u", "m"]
+        body += self.block(2, names, self.rng.randint(2, 4), False)
+        rets = [n for n in assigned(body) if n not in ("i", "j")]
+        body.append(Ret(Tup([N(n) for n in rets])))
+        return body
+
+
+def inputs_for(rng, body_src, n):
+    """argument vectors (a small int, an arbitrary int, a str)"""
+    A = [0, 1, 3, 5, 64, 70]
+    Bs = [0, 1, -3, 5, 2, BIG31, 2 ** 31, -2 ** 63, 2 ** 63, 2 ** 70 + 1, -2 ** 70]
+    Ss = ["", "a", "abc", "abcdefghij"]
+    fixed = [(0, 1, ""), (3, 5, "abc"), (70, 2 ** 70 + 1, "abcdefghij"), (64, -3, "a")]
+    out = list(fixed[:n])
+    while len(out) < n:
+        t = (rng.choice(A), rng.choice(Bs), rng.choice(Ss))
+        if t not in out:
+            out.append(t)
+    return out
+
+
+# --------------------------------------------------------------------------- facts -> the spec's type classes
+
+def type_class(ent):
+    if ent["pyobject"]:
+        return "S" if ent.get("builtin") == "str" else "O"
+    if ent["is_bint"]:
+        return "B"
+    if ent["is_uchar"]:
+        return "U"
+    if ent["is_float"]:
+        return "D"
+    if ent["is_int"]:
+        return "L"
+    if "complex" in ent["tname"]:
+        return "X"
+    return "?" + ent["tname"]
+
+
+def digest_facts(facts, modname, fname, locals_):
+    """-> (ty, mk, lmk) for one function, or None when the scope is missing"""
+    scopes = facts["scopes"]
+    key = "%s.%s" % (modname, fname)
+    if key not in scopes:
+        return None
+    sc = scopes[key]
+    ty = {}
+    for v in locals_:
+        ty[v] = type_class(sc[v]) if v in sc else "O"
+    mk = sorted(v for v in locals_ if v in sc and sc[v]["might_overflow"])
+    lmk = set()
+    for k, d in scopes.items():
+        if k.startswith(key + ".") and "lambda" in k:
+            for v, ent in d.items():
+                if ent["might_overflow"] and v in locals_:
+                    lmk.add(v)
+    return ty, mk, sorted(lmk)
